@@ -169,6 +169,7 @@ PROPS = {
     },
     "C17": {
         "lean_module": "SplProofs.C17",
+        "extra_modules": ["SplProofs.C17Source"],
         "streams": ["C17"],
         "rule": "stream tok: public constants and id helpers vs the regenerated model constants, the native mint's canned data, boundary enumeration of layout lengths x marker bytes x both ids, then random buffers (lengths 0..600 weighted to "
                 "82/165/166/355 neighbours, special bytes at 44/45/108/165) x program ids (real, one-bit near misses, random); non-trivial = "
